@@ -27,11 +27,11 @@ SeqEq(a, b) == Len(a) = Len(b) /\ \A k \in 1..Len(a) : a[k] = b[k]
 TimeOk(u, ta, tb) == Q(u, ta, tb)
 EndOk(u, ea, eb) == IF ea = -1 THEN TRUE ELSE eb # -1 /\ Q(u, ea, eb)
 
+\* times of the animation steps that both documents have (a missing step is reported by the clause animation_steps)
 StepsOk(u, sa, sb) ==
-  /\ Len(sa) = Len(sb)
-  /\ \A k \in 1..Len(sa) : /\ sa[k][1] = sb[k][1] /\ sa[k][2] = sb[k][2]
-                           /\ TimeOk(u, sa[k][3], sb[k][3])
-                           /\ (IF sa[k][4] = -1 THEN sb[k][4] = -1 ELSE sb[k][4] # -1 /\ Q(u, sa[k][4], sb[k][4]))
+  \A k \in 1..Len(sa) : k <= Len(sb) =>
+      /\ TimeOk(u, sa[k][3], sb[k][3])
+      /\ (IF sa[k][4] = -1 THEN sb[k][4] = -1 ELSE sb[k][4] # -1 /\ Q(u, sa[k][4], sb[k][4]))
 
 \* all times of a timed item list (nodes or regions), as two aligned sequences (only times present in A)
 RECURSIVE Times(_, _, _, _)
